@@ -435,6 +435,44 @@ theorem closedStart_le (limit P : Nat) (h : List Nat) (a B : Nat) (ha : a ≤ B)
     | some w => have := hwin h1 w hw; simp only; omega
   · simp only [h1, ↓reduceIte]; exact hm
 
+/-- the recurrence never goes beyond an instant `t ≥ arrival` at which nothing forces a wait -/
+theorem closedStart_le_of_free (limit P : Nat) (h : List Nat) (a t : Nat) (hat : a ≤ t)
+    (hsorted : h.Pairwise (· ≤ ·)) (hle : ∀ p ∈ h, p ≤ t)
+    (hcnt : (h.filter fun p => decide (t < p + P)).length < limit) :
+    closedStart limit P h a ≤ t := by
+  apply closedStart_le
+  · exact hat
+  · intro p hp; exact hle p (List.mem_of_getLast? hp)
+  · intro h1 w hw
+    by_cases hwa : w + P ≤ t
+    · exact hwa
+    · exfalso
+      have hsplit : h = h.take (h.length - limit) ++ h.drop (h.length - limit) :=
+        (List.take_append_drop _ _).symm
+      have hdl : (h.drop (h.length - limit)).length = limit := by simp; omega
+      have hall : (h.drop (h.length - limit)).filter (fun p => decide (t < p + P))
+          = h.drop (h.length - limit) := by
+        rw [List.filter_eq_self]
+        intro p hp
+        cases hd : h.drop (h.length - limit) with
+        | nil => rw [hd] at hp; simp at hp
+        | cons b rest =>
+          have hb : h[h.length - limit]? = some b := by
+            have : (h.drop (h.length - limit))[0]? = some b := by rw [hd]; rfl
+            simpa [List.getElem?_drop] using this
+          have hbw : b = w := by rw [hw] at hb; exact (Option.some.inj hb).symm
+          have hpw : (b :: rest).Pairwise (· ≤ ·) := by
+            rw [← hd]; exact hsorted.sublist (List.drop_sublist _ _)
+          have hrest := (List.pairwise_cons.mp hpw).1
+          rw [hd] at hp
+          simp only [decide_eq_true_eq]
+          rcases List.mem_cons.mp hp with rfl | hp
+          · omega
+          · have := hrest p hp; omega
+      have : limit ≤ (h.filter fun p => decide (t < p + P)).length := by
+        rw [hsplit, List.filter_append, hall, List.length_append, hdl]; omega
+      omega
+
 /-- the `i`-th call (0-based) waits at most `⌊i / limit⌋` periods -/
 theorem runN_delay_bound (limit P : Nat) (hl : 0 < limit) (as : List Nat)
     (hsorted : as.Pairwise (· ≤ ·)) :
